@@ -394,13 +394,12 @@ impl<'a> World<'a> {
             Op::IterOpen { src, ks, sel } => self.op_iter_open(*src, *ks, sel)?,
             Op::IterStep { j, back, n } => {
                 let Some(jx) = idx(*j, self.iters.len()) else { return Ok(()) };
-                // iterators of a transaction that wrote since are not stepped (see DESIGN §6)
+                // an iterator created from a write transaction shows the transaction's view at the
+                // moment it was created, also after the transaction wrote again
                 if let Some((uid, wver)) = self.iters[jx].tx {
                     let live = self.txs.iter().find(|t| t.uid == uid).map(|t| t.wver);
-                    if live != Some(wver) {
-                        self.iters.remove(jx);
-                        self.st.inc("tx_iters_invalidated");
-                        return Ok(());
+                    if live.is_some() && live != Some(wver) {
+                        self.st.inc("tx_iter_steps_after_later_tx_write");
                     }
                 }
                 for _ in 0..(*n).max(1) {
